@@ -560,6 +560,44 @@ def features(conv, mode, cap=512):
     return fs
 
 
+def in_coq_normal_form(conv):
+    """The syntactic normal form of AmqpSpec.normal (a sufficient condition for "no finding class
+    is triggered"): every content method of either direction - reported or not - is followed on
+    its direction, heartbeats apart, by its header (body size 1..512) and exactly one body frame
+    of that size; no handshake methods; requests only from the client, replies only from the
+    server; pairing keys distinct per direction."""
+    for side in "cs":
+        st = None
+        keys = set()
+        for e in conv.frames(side):
+            if e.kind in ("hb", "proto"):
+                continue
+            if e.kind == "method":
+                key = (e.cls, e.meth)
+                if st is not None or key in SELF_PAIRED or REPLY_OF.get(key) in SELF_PAIRED:
+                    return False
+                rq, rp = key in RPC, key in REPLY_OF
+                if side == "c" and (rp or key == (60, 60)) or side == "s" and (rq or key == (60, 40)):
+                    return False
+                if rq or rp:
+                    k = (e.ch, e.cls, e.meth - e.meth % 10)
+                    if k in keys:
+                        return False
+                    keys.add(k)
+                st = ("h", e.ch) if key in CONTENT else None
+            elif e.kind == "header":
+                if st is None or st[0] != "h" or st[1] != e.ch or not 1 <= e.size <= 512:
+                    return False
+                st = ("b", e.ch, e.size)
+            elif e.kind == "body":
+                if st is None or st[0] != "b" or st[1] != e.ch or len(e.data) != st[2]:
+                    return False
+                st = None
+        if st is not None:
+            return False
+    return True
+
+
 # ------------------------------------------------------------------------------------ harness output -> abstract
 def from_canon(c, arg=True):
     """Canonical harness value -> abstract value.  With arg=True scalars become plain Python
@@ -1137,17 +1175,21 @@ def k_check(ctx, name, pairs, chunk=400, maxbytes=2000, budget=3000000, normal_i
             terms.append(t)
             idx.append(i)
             total += len(t)
-    bad = []
+    bad, spec_bad = [], []
     for k in range(0, len(terms), chunk):
         src = ("Require Import V.Base.Prelude V.Amqp.AmqpTypes V.Amqp.AmqpModel V.Amqp.AmqpEq.\nLocal Open Scope N_scope.\n"
                "Definition cases : list kcase := [\n" + ";\n".join(terms[k:k + chunk]) + "].\n"
-               "Definition M := Eval vm_compute in failing kcheck cases.\nPrint M.\n")
+               "Definition M := Eval vm_compute in failing kcheck_obs cases.\nPrint M.\n"
+               "Definition S := Eval vm_compute in failing kcheck_spec cases.\nPrint S.\n")
         rc, out = ctx.coq_run("%s_%d" % (name, k), src, timeout=900)
         got = vlib.parse_coq_list_of_nat(out, "M")
-        if rc != 0 or got is None:
+        got_s = vlib.parse_coq_list_of_nat(out, "S")
+        if rc != 0 or got is None or got_s is None:
             ctx.log(out[-800:])
             return None, len(terms)
         bad += [idx[k + j] for j in got]
+        spec_bad += [idx[k + j] for j in got_s]
+    ctx.amqp_spec_mismatches = spec_bad
     return bad, len(terms)
 
 
